@@ -287,8 +287,8 @@ class World:
             return d
         for n in sorted(os.listdir(top)):
             p = os.path.join(top, n)
-            if os.path.isdir(p):
-                d[n] = "dir"
+            if os.path.islink(p) or os.path.isdir(p) or not os.path.isfile(p):
+                d[n] = "dir"          # an obstacle: a directory, or a symbolic link / device standing in for the file
             else:
                 st = os.stat(p)
                 d[n] = (st.st_mtime_ns, st.st_ino, open(p, "rb").read())
@@ -305,19 +305,43 @@ class World:
             return None
 
     # -- one run in a fresh process
-    def run(self, force=False, extra=(), args=None):
-        """args: complete CLI argument list after `generate` (invocation spellings); default: the configuration file."""
+    def _exec(self, argv, stdin=None, fsize0=False):
+        """fsize0: RLIMIT_FSIZE = 0 with SIGXFSZ ignored - every write to a regular file fails with EFBIG after a
+        successful open (what a full disk looks like)."""
+        if fsize0:
+            argv = ["/bin/sh", "-c", "trap '' XFSZ; ulimit -f 0; exec \"$@\"", "sh"] + list(argv)
+        try:
+            r = subprocess.run(argv, cwd=self.sb.root, input=stdin, stdout=subprocess.PIPE, stderr=subprocess.STDOUT,
+                               text=True, env=vlib.ENV, timeout=120)
+            return r.returncode, r.stdout
+        except subprocess.TimeoutExpired:
+            return -1, "TIMEOUT"
+
+    def run(self, force=False, extra=(), args=None, fsize0=False):
+        """args: complete CLI argument list after `generate` (invocation spellings); default: the configuration file.
+        entry init: the `init` subcommand (writes typegen.json, then runs a generation with -p/-g/-v/--visualize-deps
+        taken from the description); entry libgen: generate_from_config through the driver."""
         before = self.stat()
-        if self.entry == "cli":
-            if args is None:
-                args = ["-c", "typegen.json"] if self.conf == "cfile" else []
-            args = ["generate"] + list(args) + (["--force"] if force else []) + list(extra)
-            rc, text = self.sb.cli(args)
+        if self.entry in ("cli", "init"):
+            if self.entry == "init":
+                cfg = self.desc["cfg"]
+                args = ["init", "-p", "./" + SRC, "-g", "./" + OUT, "-o", "typegen.json", "--force",
+                        "-v", cfg["validation_library"]] + (["--visualize-deps"] if cfg["visualize_deps"] else [])
+            else:
+                if args is None:
+                    args = ["-c", "typegen.json"] if self.conf == "cfile" else []
+                args = ["generate"] + list(args) + (["--force"] if force else []) + list(extra)
+            rc, text = self._exec([vlib.REPO_BIN, "tauri-typegen"] + list(args), fsize0=fsize0)
             failed = rc != 0
         else:
             # the build entry has no flag: forcing goes through the configuration (done by the caller)
-            r = subprocess.run([vlib.harness_bin("c08"), "gen"], input=json.dumps({"id": 0, "dir": self.sb.root}) + "\n",
-                               stdout=subprocess.PIPE, stderr=subprocess.STDOUT, text=True, env=vlib.ENV, timeout=120)
+            sub = "gen" if self.entry == "build" else "genconf"
+            _, out = self._exec([vlib.harness_bin("c08"), sub], stdin=json.dumps({"id": 0, "dir": self.sb.root}) + "\n", fsize0=fsize0)
+
+            class _R:
+                stdout = out
+                returncode = 0
+            r = _R()
             text = r.stdout
             obs = None
             for line in text.splitlines():
@@ -350,7 +374,7 @@ class World:
             decision = "up_to_date"
         else:
             decision = "regenerated"
-        if self.entry == "cli" and not failed:
+        if self.entry in ("cli", "init") and not failed:
             said_utd = "bindings are up to date" in text
             if said_utd != (decision == "up_to_date"):
                 decision = "inconsistent(%s,said_up_to_date=%s)" % (decision, said_utd)
